@@ -9,7 +9,9 @@ static void gen_c04(Draw &d, Case &c) {
   int ny = d.coin(55) ? 1 : (int)d.i(2, 3);
   int xopt = (int)d.i(-1, 5), yopt = (int)d.i(-1, 5);
   if (ny == 1 && d.coin(40)) yopt = 0;                 // the affine-equivariance clause is stated for a centred response
-  RegData R = gen_regression(d, n, p, ny, 2.5, xopt, yopt);
+  bool design = d.coin(20);
+  RegData R = design ? gen_design_regression(d, n, p, ny, xopt, yopt) : gen_regression(d, n, p, ny, 2.5, xopt, yopt);
+  if (design) c.tags.push_back("orthogonal-design");
   int nnew = (int)d.i(1, 5);
   M N(nnew, p);
   for (int i = 0; i < nnew; i++) for (int j = 0; j < p; j++) N(i, j) = (double)(R.X((int)d.i(0, n - 1), j) + d.dyadic(2000, 8));
